@@ -320,7 +320,7 @@ def guarded_check(s, timeout_ms):
     context a little after the deadline; an interrupted query counts as unknown"""
     done = threading.Event()
     ctx = s.ctx              # the long-lived main context: the thread must not keep `s` alive (z3
-    wait_s = timeout_ms / 1000.0 + 1.5      # objects must not be released from another thread)
+    wait_s = timeout_ms / 1000.0 + 6.0      # objects must not be released from another thread)
 
     def watchdog(done=done, ctx=ctx, wait_s=wait_s):
         if not done.wait(wait_s):
@@ -328,6 +328,12 @@ def guarded_check(s, timeout_ms):
                 ctx.interrupt()
             except Exception:
                 pass
+            # z3 5.1.0 occasionally neither honours its timeout nor the interrupt (seen on one tile obligation of a
+            # harmlessly edited Parser.feed, only under full load, not reproducible from the dumped query): a worker
+            # process that is stuck gives up its job instead of burning the whole job budget; check.py runs the job again
+            # with another solver seed.  Only in worker processes (PYVC_WORKER), never in the main process.
+            if os.environ.get('PYVC_WORKER') and not done.wait(15.0):
+                os._exit(75)
     t = threading.Thread(target=watchdog, daemon=True)
     t.start()
     try:
@@ -338,6 +344,7 @@ def guarded_check(s, timeout_ms):
         done.set()
 
 
+_DUMPN = [0]
 _SLOW = {'n': 0}
 _SECOND = {'spent': 0.0}
 SECOND_BUDGET_S = float(os.environ.get('PYVC_SECOND_BUDGET', '400'))
@@ -346,12 +353,17 @@ SLOW_BUDGET = int(os.environ.get('PYVC_SLOW_BUDGET', '6'))
 
 def discharge(o, timeout_ms=QUICK_TIMEOUT_MS, second_opinion=False):
     t0 = time.time()
+    if os.environ.get('PYVC_TRACE'):      # debugging aid: which obligation is a worker on?
+        sys.stderr.write('[%d] %s line %s\n' % (os.getpid(), o.name, o.lineno))
+        sys.stderr.flush()
     g = o.goal
     sg = simplify(g)
     if is_true(sg):
         o.verdict, o.backend, o.ms = 'proved', 'simplifier', 0.0
         return o
     s = z3.Solver()
+    if os.environ.get('PYVC_ATTEMPT', '0') != '0':
+        s.set('smt.random_seed', int(os.environ['PYVC_ATTEMPT']))       # a re-run after a stuck / crashed worker takes another route
     exhausted = _SLOW['n'] > SLOW_BUDGET
     s.set('timeout', 400 if exhausted else min(timeout_ms, 2500))
     if os.environ.get('PYVC_MBQI', '0') != '1':
@@ -372,6 +384,10 @@ def discharge(o, timeout_ms=QUICK_TIMEOUT_MS, second_opinion=False):
     s.add(*literal_facts())
     s.add(Not(g))
     first_timeout = 400 if exhausted else min(timeout_ms, 2500)
+    if os.environ.get('PYVC_DUMP_SMT') and os.environ.get('PYVC_DUMP_SMT_NAME', '') in o.name:      # debugging aid
+        _DUMPN[0] += 1
+        with open(os.path.join(os.environ['PYVC_DUMP_SMT'], '%d-%d.smt2' % (os.getpid(), _DUMPN[0])), 'w') as f_:
+            f_.write('; %s line %s\n(set-logic ALL)\n%s' % (o.name, o.lineno, s.to_smt2()))
     r = guarded_check(s, first_timeout)
     o.backend = 'z3-%s' % z3.get_version_string()
     if r == z3.unknown:
